@@ -456,7 +456,7 @@ def _gen_map(rng, big=False):
 
 def generate(rng, tier, mult):
     quick = tier == "quick"
-    n_pipes = (18 if quick else 100) * mult
+    n_pipes = (22 if quick else 100) * mult
     cases = []
     for _ in range(n_pipes):
         base = pipegen.gen_pipeline(rng, nmax=4)
@@ -480,7 +480,7 @@ def generate(rng, tier, mult):
                     length = rng.randint(2, 6)
                     h = _gen_history(rng, pd, pl, length, p_mut=rng.choice([0.0, 0.15, 0.3]))
                     cases.append({"kind": "hist", "p": pd, "cache": cache, "h": h})
-    for _ in range((36 if quick else 1000) * mult):
+    for _ in range((44 if quick else 1000) * mult):
         cache = rng.choice(_cache_choices(rng, tier))
         req = _gen_map(rng)
         r = rng.random()
@@ -488,7 +488,7 @@ def generate(rng, tier, mult):
         cases.append({"kind": "map", "req": req, "second": second, "cache": cache})
     # shared cache under a thread pool: LRUCache(shared=True) with a small max_size (evictions by the other workers
     # between the operations of one invocation), inputs with repeated values
-    for _ in range((12 if quick else 220) * mult):
+    for _ in range((14 if quick else 220) * mult):
         req = _gen_map(rng, big=True)
         r = rng.random()
         second = None if r < 0.5 else {"replace": None if r < 0.8 else rng.randrange(len(req["funcs"]))}
